@@ -18,6 +18,9 @@ pub trait BuildHasher {
     spec fn id(&self) -> int;
     fn build_hasher(&self) -> (r: Self::Hasher)
         ensures r.written() == Seq::<int>::empty(), r.bid() == self.id();
+    // std provided method: build_hasher(); x.hash(&mut h); h.finish()
+    fn hash_one<T: Hash>(&self, x: T) -> (r: u64)
+        ensures r == hash_fn(self.id(), x.words());
 }
 
 pub trait Hash {
